@@ -165,7 +165,9 @@ fn render(t: &Template, places: &[(Place, Arg)], with_error: bool) -> Rendered {
             other.push_str(&format!("[[allow({})]]", arg_text(a, t).join(", ")));
         }
     }
-    other.push_str("\nmodule N\nstruct Z {}\n");
+    // the other file has lints of its own, one of every kind (they are reported in different phases of the
+    // compilation): only the command line and ITS file-level attribute may silence them
+    other.push_str("\nmodule N\nstruct Z {}\n[deprecated] struct OldN {}\nstruct UsesN { o: OldN }\n/// {@link NopeN}\ncustom CN\n/// @bogusN\ncustom DN\n/// @param q: none\nstruct EN {}\n");
     let mut cli = vec![];
     for (p, a) in places {
         if *p == Place::Cli {
@@ -250,7 +252,8 @@ fn run_config(t: &Template, places: &[(Place, Arg)], with_error: bool, swap: boo
     let (_bast, bfiles, bd) = b;
     let (_wast, wfiles, wd) = w;
     // template sanity: the baseline produces the target lint as a warning
-    let target_base: Vec<&DiagObs> = bd.iter().filter(|d| d.code == t.lint).collect();
+    let other_file = format!("string-{}", if swap { 0 } else { 1 });
+    let target_base: Vec<&DiagObs> = bd.iter().filter(|d| d.code == t.lint && d.file.as_deref() != Some(other_file.as_str())).collect();
     if target_base.is_empty() || target_base.iter().any(|d| d.level != "warning") {
         out.violate(format!("c13/{fam}/lint-not-reported-as-warning/{}", t.lint), format!("without any suppression the {} lint of this template must be a warning; diagnostics: {:?}\n{}", t.lint, bd.iter().map(|d| (&d.code, &d.level)).collect::<Vec<_>>(), desc()));
         return "no-lint".into();
@@ -274,6 +277,19 @@ fn run_config(t: &Template, places: &[(Place, Arg)], with_error: bool, swap: boo
         if d.level == "error" || base_level == "error" {
             if d.level != *base_level {
                 out.violate(format!("c13/{fam}/error-level-changed"), format!("{} changed level {} -> {}\n{}", d.code, base_level, d.level, desc()));
+            }
+            continue;
+        }
+        if d.file.as_deref() == Some(other_file.as_str()) {
+            // a lint of the other file: silenced iff the command line or that file's own attribute names it
+            let exp = places.iter().any(|(p, a)| matches!(p, Place::Cli | Place::OtherFile) && names(a, &d.code, t) && !(*a == Arg::ThatLowercase && *p != Place::Cli));
+            let got = d.level == "allowed";
+            if exp != got {
+                let pl: Vec<String> = places.iter().map(|(p, a)| format!("{p:?}:{a:?}")).collect();
+                out.violate(
+                    format!("c13/{fam}/{}/lint-of-the-other-file/{}", if exp { "not-silenced" } else { "wrongly-silenced" }, pl.join("+")),
+                    format!("lint {} ({}) of the other file has level {} but the suppressions {:?} {} it\n{}", d.code, d.message, d.level, places, if exp { "name" } else { "are out of scope of or do not name" }, desc()),
+                );
             }
             continue;
         }
